@@ -320,6 +320,8 @@ class StringIO(IOBase):
                     reply = self._conn.readline(self.timeout)
                 except ConnectionClosed:
                     self.closeConnection()
+                    # remember the failure: the reconnect callbacks have to run after reconnecting
+                    self._last_error = 'disconnected'
                     raise CommunicationFailedError('disconnected') from None
                 reply = reply.decode(self.encoding)
                 self.comLog('< %s', reply)
@@ -474,6 +476,8 @@ class BytesIO(IOBase):
                     reply = self._conn.readbytes(replylen, self.timeout)
                 except ConnectionClosed:
                     self.closeConnection()
+                    # remember the failure: the reconnect callbacks have to run after reconnecting
+                    self._last_error = 'disconnected'
                     raise CommunicationFailedError('disconnected') from None
                 self.comLog('< %s', hexify(reply))
                 return self.getFullReply(request, reply)
